@@ -514,11 +514,11 @@ Plan gen_C03(Gen &g, Plan p)
 // C04 ------------------------------------------------------------------------
 Plan gen_C04(Gen &g, Plan p)
 {
-    static const char *fams[] = { "H1", "H1", "H2", "H3", "H4a", "H4b", "H4c", "H5", "H5", "H6", "H6", "H7" };
-    std::string fam = fams[g.r.below(12)];
+    static const char *fams[] = { "H1", "H1", "H2", "H3", "H4a", "H4b", "H4c", "H5", "H5", "H6", "H6", "H7", "H8", "H8" };
+    std::string fam = fams[g.r.below(14)];
     p.cfg["family"] = QString::fromStdString(fam);
     p.target = fam == "H4c" ? "singleton" : (g.r.chance(1, 2) ? "logger" : "bare");
-    p.app = fam != "H4b";
+    p.app = fam != "H4b" && fam != "H8";
     p.poison = true;
     bool gate = g.r.chance(1, 6) && fam != "H4c";
     p.root = gen_tree(g, gate);
@@ -609,6 +609,46 @@ Plan gen_C04(Gen &g, Plan p)
         if (g.r.chance(1, 2))
             p.main_ops.push_back(mkop("destroy_app"));
         p.main_ops.push_back(mkop("exit"));
+    } else if (fam == "H8") {
+        // the application object appears (or disappears and reappears) while the logger thread already
+        // has a backlog: messages accepted without an application object are owed like any other
+        bool reappear = g.r.chance(1, 3);
+        if (reappear)
+            p.main_ops.push_back(mkop("create_app"));
+        p.main_ops.push_back(mkop("move"));
+        if (reappear) {
+            main_logs(0, 4);
+            maybe_sleep();
+            p.main_ops.push_back(mkop("destroy_app"));
+        }
+        main_logs(1, 8);
+        spawn_all();
+        if (g.r.chance(2, 3))
+            p.main_ops.push_back(mkop("sleep", (int)g.r.range(1, 40000)));
+        if (g.r.chance(1, 3))
+            p.main_ops.push_back(mkop("join", -1));
+        p.main_ops.push_back(mkop("create_app"));
+        main_logs(0, 4);
+        maybe_sleep();
+        maybe_gate();
+        switch (g.r.below(4)) {
+        case 0:
+            p.main_ops.push_back(mkop("reset"));
+            main_logs(0, 2);
+            break;
+        case 1:
+            p.main_ops.push_back(mkop("exec_quit"));
+            main_logs(0, 2);
+            break;
+        case 2:
+            p.main_ops.push_back(mkop("destroy_app"));
+            break;
+        default:
+            break;
+        }
+        p.main_ops.push_back(mkop("join", -1));
+        main_logs(0, 2);
+        p.main_ops.push_back(mkop("destroy"));
     } else if (fam == "H7") {
         // the application object is destroyed by the main thread while another thread is in the middle
         // of a stop (waiting for a backlog): the stop must notice and finish the backlog itself
